@@ -39,7 +39,7 @@ def make_api(handler):
 # ---------------------------------------------------------------------------- continuation / merging
 
 
-def h_continuation(npages: int, c1: int, c2: int, c3: int, stuck: bool):
+def h_continuation(npages: int, c1: int, c2: int, c3: int, stuck: bool, repeat: bool):
     """A synthetic wiki serves its pages in batches cut at symbolic positions; the merged result must be the union,
     every batch requested once, and a server that repeats its continuation token must not loop forever."""
     assume(0 <= npages <= 5)
@@ -69,6 +69,10 @@ def h_continuation(npages: int, c1: int, c2: int, c3: int, stuck: bool):
     api = make_api(handler)
     try:
         res = api.do_request(action="query", generator="allpages")
+        if repeat and not stuck:
+            # the same client asks again (a redirect and its target, a title listed twice): same answer expected
+            del log[:]
+            res = api.do_request(action="query", generator="allpages")
     except RuntimeError as e:
         return {"sig": "continuation|does-not-terminate", "cuts": cuts, "npages": npages, "stuck": stuck, "log": log}
     if stuck:
@@ -222,7 +226,7 @@ def build(tier: str) -> CheckSpec:
     sapi, fetch, authors = _mods()
     tmo = 240 if tier == "quick" else 1500
     cubes = [
-        Cube("continuation: batches cut at symbolic positions", h_continuation, {"npages": int, "c1": int, "c2": int, "c3": int, "stuck": bool}, {}, timeout=tmo, group="continuation"),
+        Cube("continuation: batches cut at symbolic positions", h_continuation, {"npages": int, "c1": int, "c2": int, "c3": int, "stuck": bool, "repeat": bool}, {}, timeout=tmo, group="continuation"),
         Cube("contributors: names, bots, anon counts, chunks, redirect", h_contributors,
              {"n1": int, "n2": int, "n3": int, "a1": int, "a2": int, "cut": int, "redirect": bool, "anon_late": bool}, {"n4": 0}, timeout=tmo, group="contributors"),
         Cube("get_edits stores what the API reported", h_lookup_written, {"n1": int, "n2": int, "anon": int, "mapped": bool, "t": int}, {}, timeout=tmo, group="authors-store"),
@@ -236,7 +240,7 @@ def build(tier: str) -> CheckSpec:
         functions=[sapi.MwApi._do_request, sapi.MwApi._handle_query_continue, sapi.merge_data, sapi.MwApi.get_contributors,
                    fetch.Fetcher.get_edits, fetch.Fetcher._add_to_titles_pending_contributor_lookup, fetch.Fetcher._lookup_contributors,
                    fetch.split_blocks, fetch.get_block, authors.InspectAuthors.get_authors],
-        bounds={"continuation": "0..5 pages, three symbolic cut points, optional server that repeats its continuation token",
+        bounds={"continuation": "0..5 pages, three symbolic cut points, optional server that repeats its continuation token, optionally the same query issued twice on one client",
                 "contributors": "2 titles, 4 entries with names from %r, symbolic anonymous counts < 1000 arriving with the first or the second chunk, chunk cut 0..4, optional redirect" % NAMES,
                 "authors store": "2 names from the same list, symbolic anonymous count, plain and mapped (image) title",
                 "batching": "lists of 0..7 entries, limits 1..8"},
